@@ -119,6 +119,12 @@ def value_inv(ty, t) -> List[Any]:
                 + [S.SeqNL.len(lsq) == n,
                    z3.ForAll([j], z3.Implies(z3.And(j >= 0, j < n),
                                              S.SeqNL.arr(lsq)[j] == S.Node.f_label(arr[j])))])
+    if ty == "RuleV":
+        out = value_inv("EdgeLabel", S.RuleV.f_lhs(t))
+        for acc, ety, SS in ((S.RuleV.f_edges, "Edge", S.SeqEdge), (S.RuleV.f_nodes, "Node", S.SeqNode), (S.RuleV.f_ext, "Node", S.SeqNode)):
+            sq = acc(t)
+            out += seq_inv(SS.len(sq), SS.arr(sq), ety)
+        return out
     if ty == "Factor":
         sq = S.fac_domains(t)
         return seq_inv(S.SeqDomain.len(sq), S.SeqDomain.arr(sq), "Domain")
